@@ -1,7 +1,9 @@
-// ble2lean (T2): translates the Decode* functions of /repo/bleparser into Lean definitions that mirror them
-// statement by statement with Go's semantics made explicit (bounds checks against len / cap as explicit panics,
-// fixed-width wrap-around, two's-complement conversions, symbolic float conversion). Anything outside the
-// accepted subset is rejected with "unsupported construct at file:line": a rejected file is a broken tie.
+// ble2lean (T2): translates the Decode* functions of /repo/bleparser into Lean definitions by symbolic execution
+// of their Go source (go/ast + go/types), with Go's semantics made explicit: bounds checks against len / cap as
+// explicit panics, fixed-width wrap-around, two's-complement conversions, symbolic float conversion, error values
+// classified by what errors.Is would match. Package-local helper functions are inlined, constants are propagated,
+// branches that do not return are merged into conditional values. Anything outside the accepted subset is rejected
+// with "unsupported construct at file:line": a rejected decoder is a broken tie.
 package main
 
 import (
@@ -15,6 +17,7 @@ import (
 	"go/types"
 	"os"
 	"path/filepath"
+	"regexp"
 	"sort"
 	"strconv"
 	"strings"
@@ -25,54 +28,132 @@ type unsupported struct{ msg string }
 var fset = token.NewFileSet()
 
 func fail(n ast.Node, format string, a ...any) {
-	pos := fset.Position(n.Pos())
-	panic(unsupported{fmt.Sprintf("unsupported construct at %s:%d: %s", filepath.Base(pos.Filename), pos.Line, fmt.Sprintf(format, a...))})
+	where := "?"
+	if n != nil {
+		pos := fset.Position(n.Pos())
+		where = fmt.Sprintf("%s:%d", filepath.Base(pos.Filename), pos.Line)
+	}
+	panic(unsupported{fmt.Sprintf("unsupported construct at %s: %s", where, fmt.Sprintf(format, a...))})
 }
 
 // ---- symbolic values ----
 
-type sliceVal struct {
-	isInp  bool // a sub-slice of inp: [lo, hi) ; whole inp: lo=0, hi=-1
-	lo, hi int
-	lit    []string // []byte{…} literal: element expressions
+type val interface{}
+
+// intV: a Lean Int expression holding the value of a Go integer of type ty (already reduced to ty's range).
+// c: the value when it is known at translation time. mask: bits that may be set (unsigned values; ^0 = unknown).
+type intV struct {
+	lean string
+	ty   types.Type
+	c    *int64
+	mask uint64
 }
 
-type fexpr struct { // raw * mul / div + off  | NaN | conditional
-	lean string
+type boolV struct {
+	lean string // Lean Prop
+	c    *bool
+}
+
+type floatV struct{ f *fl }
+
+// sliceV: a sub-slice inp[lo:hi] of the decoder's input (hi = -1: up to len(inp)), or a literal []byte{…}
+type sliceV struct {
+	isInp  bool
+	lo, hi int
+	lit    []intV
+}
+
+// errV: an error value; cond = the Lean Prop "the value is non-nil"; class = the Lean Err constructor errors.Is matches
+type errV struct {
+	cond  string
+	class string
+}
+
+type structV struct {
+	typ    types.Type
+	fields map[string]val
+	order  []string
+}
+
+type opaqueV struct{} // strings and other values that never influence a result
+
+type fl struct { // raw * mul / div + off  | NaN | conditional
+	nan      bool
+	raw      string
+	mul, div int64
+	off      string
+	cond     string
+	a, b     *fl
+}
+
+func (f *fl) lean() string {
+	if f.cond != "" {
+		return fmt.Sprintf("(if %s then %s else %s)", f.cond, f.a.lean(), f.b.lean())
+	}
+	if f.nan {
+		return "FV.nan"
+	}
+	return fmt.Sprintf("(FV.num %s %d %d %q)", f.raw, f.mul, f.div, f.off)
 }
 
 type tr struct {
 	info    *types.Info
 	funcs   map[string]*ast.FuncDecl
-	lines   []string          // emitted "if … then … else" / "let … :=" lines
-	env     map[string]string // Go local -> Lean Int variable
-	senv    map[string]sliceVal
-	consts  map[string]int64 // constant parameters of an inlined helper
-	fields  map[string]string
+	methods map[string]*ast.FuncDecl // "Type.Method"
+	lines   []string                 // emitted "if … then … else" / "let … :=" lines
+	env     map[types.Object]val
 	path    []string
 	nvar    int
-	inpName string
+	top     bool // executing the decoder itself (returns emit outcome lines) rather than an inlined helper
+	depth   int
+	inpObj  types.Object
+	retObj  types.Object
+	errObj  types.Object
+	order   []string // field order of the result struct
+	ended   bool     // the decoder's final outcome has been written
+	fd      *ast.FuncDecl
+	fdStack [][]types.Object // named results of the functions being executed
+	lenOK   int              // n ≤ inp.length holds from here on (established by an unconditional check)
+	capOK   int              // n ≤ inp.length + spare.length likewise
 }
 
 func (t *tr) fresh(p string) string { t.nvar++; return fmt.Sprintf("%s%d", p, t.nvar) }
 
-func (t *tr) pathCond() string {
-	if len(t.path) == 0 {
-		return ""
-	}
-	return strings.Join(t.path, " ∧ ")
-}
+func (t *tr) pathCond() string { return strings.Join(t.path, " ∧ ") }
 
 func (t *tr) check(cond, outcome string) {
 	c := cond
 	if pc := t.pathCond(); pc != "" {
-		c = pc + " ∧ " + cond
+		if cond == "True" {
+			c = pc
+		} else {
+			c = pc + " ∧ " + cond
+		}
 	}
 	t.lines = append(t.lines, fmt.Sprintf("if %s then %s else", c, outcome))
 }
 
 func (t *tr) let(name, typ, expr string) {
 	t.lines = append(t.lines, fmt.Sprintf("let %s : %s := %s", name, typ, expr))
+}
+
+// implied: is the Lean Prop `c` a conjunct of the current path (true), its negation (false), or unknown?
+func (t *tr) implied(c string) (known, value bool) {
+	switch c {
+	case "True":
+		return true, true
+	case "False":
+		return true, false
+	}
+	for _, p := range t.path {
+		if p == c {
+			return true, true
+		}
+		if p == "¬ "+c || p == "(¬ "+c+")" {
+			return true, false
+		}
+	}
+	return false, false
 }
 
 func intType(ty types.Type) (w int, signed bool, ok bool) {
@@ -87,7 +168,7 @@ func intType(ty types.Type) (w int, signed bool, ok bool) {
 		return 16, false, true
 	case types.Uint32:
 		return 32, false, true
-	case types.Uint64, types.Uint:
+	case types.Uint64, types.Uint, types.Uintptr:
 		return 64, false, true
 	case types.Int8:
 		return 8, true, true
@@ -97,11 +178,64 @@ func intType(ty types.Type) (w int, signed bool, ok bool) {
 		return 32, true, true
 	case types.Int64, types.Int:
 		return 64, true, true
+	case types.UntypedInt, types.UntypedRune:
+		return 64, true, true
 	}
 	return 0, false, false
 }
 
-func wrap(ty types.Type, e string, n ast.Node) string {
+func isFloat(ty types.Type) bool {
+	b, ok := ty.Underlying().(*types.Basic)
+	return ok && (b.Kind() == types.Float64 || b.Kind() == types.Float32 || b.Kind() == types.UntypedFloat)
+}
+
+func isBool(ty types.Type) bool {
+	b, ok := ty.Underlying().(*types.Basic)
+	return ok && (b.Kind() == types.Bool || b.Kind() == types.UntypedBool)
+}
+
+func isErrorType(ty types.Type) bool {
+	return ty != nil && types.Identical(ty, types.Universe.Lookup("error").Type())
+}
+
+func widthMask(w int) uint64 {
+	if w >= 64 {
+		return ^uint64(0)
+	}
+	return (uint64(1) << uint(w)) - 1
+}
+
+// wrapConst: reduce v to the range of ty
+func wrapConst(ty types.Type, v int64) int64 {
+	w, s, ok := intType(ty)
+	if !ok || w >= 64 {
+		return v
+	}
+	m := int64(1) << uint(w)
+	v = ((v % m) + m) % m
+	if s && v >= m/2 {
+		v -= m
+	}
+	return v
+}
+
+func lit(v int64) string {
+	if v < 0 {
+		return fmt.Sprintf("(%d)", v)
+	}
+	return strconv.FormatInt(v, 10)
+}
+
+func constInt(ty types.Type, v int64) intV {
+	v = wrapConst(ty, v)
+	m := ^uint64(0)
+	if v >= 0 {
+		m = uint64(v)
+	}
+	return intV{lean: lit(v), ty: ty, c: &v, mask: m}
+}
+
+func wrapLean(ty types.Type, e string, n ast.Node) string {
 	w, s, ok := intType(ty)
 	if !ok {
 		fail(n, "arithmetic in non-integer type %s", ty)
@@ -112,269 +246,477 @@ func wrap(ty types.Type, e string, n ast.Node) string {
 	return fmt.Sprintf("(wrapU %d %s)", w, e)
 }
 
-func (t *tr) constOf(e ast.Expr) (int64, bool) {
-	if tv, ok := t.info.Types[e]; ok && tv.Value != nil {
-		if v, ok := constant.Int64Val(constant.ToInt(tv.Value)); ok && constant.ToInt(tv.Value).Kind() == constant.Int {
-			return v, true
-		}
+var plainVar = regexp.MustCompile(`^[vx][0-9]+$`)
+
+// ---- slices ----
+
+func (t *tr) sliceOf(e ast.Expr) sliceV {
+	v := t.eval(e)
+	s, ok := v.(sliceV)
+	if !ok {
+		fail(e, "expected a byte slice")
 	}
-	switch x := e.(type) {
-	case *ast.Ident:
-		if v, ok := t.consts[x.Name]; ok {
-			return v, true
+	return s
+}
+
+func (t *tr) sliceLen(s sliceV) (static int, dynamic string) {
+	if !s.isInp {
+		return len(s.lit), ""
+	}
+	if s.hi == -1 {
+		if s.lo == 0 {
+			return -1, "inp.length"
 		}
-	case *ast.ParenExpr:
-		return t.constOf(x.X)
-	case *ast.BinaryExpr:
-		a, ok1 := t.constOf(x.X)
-		b, ok2 := t.constOf(x.Y)
-		if ok1 && ok2 {
-			switch x.Op {
-			case token.ADD:
-				return a + b, true
-			case token.SUB:
-				return a - b, true
-			case token.MUL:
-				return a * b, true
+		return -1, fmt.Sprintf("(inp.length - %d)", s.lo)
+	}
+	return s.hi - s.lo, ""
+}
+
+func (t *tr) elem(s sliceV, i int) intV {
+	if !s.isInp {
+		return s.lit[i]
+	}
+	return intV{lean: fmt.Sprintf("(at' inp spare %d)", s.lo+i), ty: types.Typ[types.Uint8], mask: 0xFF}
+}
+
+// needLen / needCap: Go's bounds checks "n ≤ len(inp)" / "n ≤ cap(inp)". A check that an earlier unconditional
+// check already implies (everything after `if ¬ (n ≤ …) then .panic else` runs with n ≤ …) is not repeated.
+func (t *tr) needLen(n int) {
+	if n <= t.lenOK {
+		return
+	}
+	t.check(fmt.Sprintf("¬ (%d ≤ inp.length)", n), ".panic")
+	if len(t.path) == 0 {
+		t.lenOK = n
+	}
+}
+
+func (t *tr) needCap(n int) {
+	if n <= t.capOK || n <= t.lenOK {
+		return
+	}
+	t.check(fmt.Sprintf("¬ (%d ≤ inp.length + spare.length)", n), ".panic")
+	if len(t.path) == 0 {
+		t.capOK = n
+	}
+}
+
+// requireLen: Go's bounds check "n <= len(s)"
+func (t *tr) requireLen(s sliceV, n int, node ast.Node) {
+	st, dyn := t.sliceLen(s)
+	if dyn != "" {
+		t.needLen(n + s.lo)
+	} else if st < n {
+		t.check("True", ".panic")
+	}
+}
+
+func (t *tr) subSlice(x *ast.SliceExpr) sliceV {
+	base := t.sliceOf(x.X)
+	if x.Slice3 {
+		fail(x, "3-index slice")
+	}
+	if !base.isInp {
+		fail(x, "slicing a literal")
+	}
+	lo, hi := 0, -1
+	if x.Low != nil {
+		v := t.intOf(x.Low)
+		if v.c == nil {
+			fail(x, "non-constant slice bounds")
+		}
+		lo = int(*v.c)
+	}
+	if x.High != nil {
+		v := t.intOf(x.High)
+		if v.c == nil {
+			fail(x, "non-constant slice bounds")
+		}
+		hi = int(*v.c)
+	}
+	if base.hi == -1 {
+		// Go: 0 <= lo <= hi <= cap(base); cap(inp[a:]) = cap(inp) - a
+		if hi == -1 {
+			// inp[lo:]: lo <= len
+			t.needLen(base.lo + lo)
+			return sliceV{isInp: true, lo: base.lo + lo, hi: -1}
+		}
+		if lo > hi || lo < 0 {
+			t.check("True", ".panic")
+		}
+		t.needCap(base.lo + hi)
+		return sliceV{isInp: true, lo: base.lo + lo, hi: base.lo + hi}
+	}
+	// a sub-slice of inp[a:b]: its capacity reaches to cap(inp)
+	if hi == -1 {
+		hi = base.hi - base.lo
+	}
+	if lo > hi || lo < 0 {
+		t.check("True", ".panic")
+	}
+	if base.lo+hi > base.hi {
+		t.needCap(base.lo + hi)
+	}
+	return sliceV{isInp: true, lo: base.lo + lo, hi: base.lo + hi}
+}
+
+// ---- expressions ----
+
+func (t *tr) intOf(e ast.Expr) intV {
+	v := t.eval(e)
+	i, ok := v.(intV)
+	if !ok {
+		fail(e, "expected an integer expression")
+	}
+	return i
+}
+
+func (t *tr) constOfExpr(e ast.Expr) (int64, bool) {
+	if tv, ok := t.info.Types[e]; ok && tv.Value != nil {
+		cv := constant.ToInt(tv.Value)
+		if cv.Kind() == constant.Int {
+			if v, ok := constant.Int64Val(cv); ok {
+				return v, true
+			}
+			if u, ok := constant.Uint64Val(cv); ok {
+				return int64(u), true
 			}
 		}
 	}
 	return 0, false
 }
 
-func lit(v int64) string {
-	if v < 0 {
-		return fmt.Sprintf("(%d)", v)
-	}
-	return strconv.FormatInt(v, 10)
-}
-
-// ---- slices ----
-
-func (t *tr) slice(e ast.Expr) sliceVal {
-	switch x := e.(type) {
-	case *ast.Ident:
-		if x.Name == t.inpName {
-			return sliceVal{isInp: true, lo: 0, hi: -1}
-		}
-		if s, ok := t.senv[x.Name]; ok {
-			return s
-		}
-	case *ast.SliceExpr:
-		base := t.slice(x.X)
-		if !base.isInp || base.hi != -1 || x.Slice3 || x.Low == nil || x.High == nil {
-			fail(e, "slice expression other than inp[a:b]")
-		}
-		lo, ok1 := t.constOf(x.Low)
-		hi, ok2 := t.constOf(x.High)
-		if !ok1 || !ok2 {
-			fail(e, "non-constant slice bounds")
-		}
-		// Go: 0 <= lo <= hi <= cap(inp)
-		if lo > hi || lo < 0 {
-			t.check("True", ".panic")
-		}
-		t.check(fmt.Sprintf("¬ (%d ≤ %s.length + spare.length)", hi, t.inpName), ".panic")
-		return sliceVal{isInp: true, lo: int(lo), hi: int(hi)}
-	case *ast.CompositeLit:
-		var elems []string
-		for _, el := range x.Elts {
-			s, _ := t.intExpr(el)
-			elems = append(elems, s)
-		}
-		return sliceVal{lit: elems}
-	}
-	fail(e, "unsupported slice value")
-	return sliceVal{}
-}
-
-func (t *tr) sliceLen(s sliceVal) (static int, dynamic string) {
-	if s.lit != nil {
-		return len(s.lit), ""
-	}
-	if s.hi == -1 {
-		return -1, t.inpName + ".length"
-	}
-	return s.hi - s.lo, ""
-}
-
-func (t *tr) elem(s sliceVal, i int) string {
-	if s.lit != nil {
-		return s.lit[i]
-	}
-	return fmt.Sprintf("(at' %s spare %d)", t.inpName, s.lo+i)
-}
-
-// requireLen: Go's bounds check "n <= len(s)"
-func (t *tr) requireLen(s sliceVal, n int, node ast.Node) {
-	st, dyn := t.sliceLen(s)
-	if dyn != "" {
-		t.check(fmt.Sprintf("¬ (%d ≤ %s)", n, dyn), ".panic")
-	} else if st < n {
-		t.check("True", ".panic")
-	}
-}
-
-// ---- integer expressions (Lean type Int) ----
-
-func (t *tr) intExpr(e ast.Expr) (string, types.Type) {
+func (t *tr) eval(e ast.Expr) val {
 	ty := t.info.TypeOf(e)
-	if v, ok := t.constOf(e); ok {
-		if _, isId := e.(*ast.Ident); !isId || t.info.Types[e].Value != nil || true {
-			return lit(v), ty
+	// compile-time constants
+	if tv, ok := t.info.Types[e]; ok && tv.Value != nil {
+		switch {
+		case tv.Value.Kind() == constant.Bool:
+			b := constant.BoolVal(tv.Value)
+			return boolV{lean: map[bool]string{true: "True", false: "False"}[b], c: &b}
+		case tv.Value.Kind() == constant.String:
+			return opaqueV{}
+		case isFloat(ty):
+			return opaqueV{} // float constants are only meaningful as operands, see floatOf
+		}
+		if v, ok := t.constOfExpr(e); ok {
+			if _, _, isInt := intType(ty); isInt {
+				return constInt(ty, v)
+			}
 		}
 	}
 	switch x := e.(type) {
 	case *ast.ParenExpr:
-		return t.intExpr(x.X)
+		return t.eval(x.X)
 	case *ast.Ident:
-		if v, ok := t.env[x.Name]; ok {
-			return v, ty
+		if x.Name == "nil" {
+			return errV{cond: "False", class: ".other"}
+		}
+		obj := t.info.Uses[x]
+		if obj == nil {
+			obj = t.info.Defs[x]
+		}
+		if v, ok := t.env[obj]; ok {
+			return v
+		}
+		// package-level error sentinels
+		if vr, ok := obj.(*types.Var); ok && isErrorType(vr.Type()) {
+			return errV{cond: "True", class: sentinelClass(vr)}
 		}
 		fail(e, "unknown identifier %s", x.Name)
+	case *ast.BasicLit:
+		return opaqueV{}
 	case *ast.IndexExpr:
-		s := t.slice(x.X)
-		i, ok := t.constOf(x.Index)
-		if !ok {
+		s := t.sliceOf(x.X)
+		i := t.intOf(x.Index)
+		if i.c == nil {
 			fail(e, "non-constant index")
 		}
-		t.requireLen(s, int(i)+1, e)
-		return t.elem(s, int(i)), ty
+		t.requireLen(s, int(*i.c)+1, e)
+		return t.elem(s, int(*i.c))
+	case *ast.SliceExpr:
+		return t.subSlice(x)
 	case *ast.SelectorExpr:
-		// ret.Field read back (switch tag)
-		if id, ok := x.X.(*ast.Ident); ok && id.Name == "ret" {
-			if v, ok := t.fields[x.Sel.Name]; ok && strings.HasPrefix(v, ".i ") {
-				return strings.TrimPrefix(v, ".i "), ty
+		// struct field read
+		if _, isPkg := t.info.Uses[identOf(x.X)].(*types.PkgName); !isPkg {
+			if sel, ok := t.info.Selections[x]; ok && sel.Kind() == types.FieldVal {
+				base := t.eval(x.X)
+				if sv, ok := base.(structV); ok {
+					if fv, ok := sv.fields[x.Sel.Name]; ok {
+						return fv
+					}
+				}
+				fail(e, "unsupported field read")
 			}
+		}
+		// qualified identifier: a sentinel error of another package, or a typed constant (handled above)
+		if obj, ok := t.info.Uses[x.Sel].(*types.Var); ok && isErrorType(obj.Type()) {
+			return errV{cond: "True", class: sentinelClass(obj)}
 		}
 		fail(e, "unsupported selector")
 	case *ast.UnaryExpr:
-		if x.Op == token.SUB {
-			a, _ := t.intExpr(x.X)
-			return wrap(ty, fmt.Sprintf("(-%s)", a), e), ty
+		switch x.Op {
+		case token.SUB:
+			a := t.intOf(x.X)
+			if a.c != nil {
+				return constInt(ty, -*a.c)
+			}
+			return intV{lean: wrapLean(ty, fmt.Sprintf("(-%s)", a.lean), e), ty: ty, mask: ^uint64(0)}
+		case token.NOT:
+			b := t.boolOf(x.X)
+			if b.c != nil {
+				n := !*b.c
+				return boolV{lean: map[bool]string{true: "True", false: "False"}[n], c: &n}
+			}
+			return boolV{lean: "(¬ " + b.lean + ")"}
+		case token.AND:
+			// &T{…}: pointers to composite literals only occur as error values
+			return t.eval(x.X)
 		}
 		fail(e, "unary %s", x.Op)
 	case *ast.BinaryExpr:
-		a, _ := t.intExpr(x.X)
 		switch x.Op {
-		case token.SHR, token.SHL:
-			k, ok := t.constOf(x.Y)
-			if !ok || k < 0 || k > 63 {
-				fail(e, "non-constant shift count")
-			}
-			if x.Op == token.SHR {
-				return fmt.Sprintf("(%s / %d)", a, int64(1)<<uint(k)), ty
-			}
-			return wrap(ty, fmt.Sprintf("(%s * %d)", a, int64(1)<<uint(k)), e), ty
-		case token.AND:
-			m, ok := t.constOf(x.Y)
-			if !ok || m < 0 || (m+1)&m != 0 {
-				fail(e, "& with something other than a constant 2^k-1 mask")
-			}
-			if _, s, _ := intType(ty); s {
-				fail(e, "& on a signed operand")
-			}
-			return fmt.Sprintf("(%s %% %d)", a, m+1), ty
-		case token.ADD, token.SUB, token.MUL:
-			b, _ := t.intExpr(x.Y)
-			op := map[token.Token]string{token.ADD: "+", token.SUB: "-", token.MUL: "*"}[x.Op]
-			return wrap(ty, fmt.Sprintf("(%s %s %s)", a, op, b), e), ty
+		case token.LAND, token.LOR, token.EQL, token.NEQ, token.LSS, token.LEQ, token.GTR, token.GEQ:
+			return t.boolExpr(x)
 		}
-		fail(e, "binary %s on integers", x.Op)
+		if isFloat(ty) {
+			return floatV{t.floatExpr(e)}
+		}
+		return t.intBinary(x, ty)
 	case *ast.CallExpr:
-		// conversions T(x)
-		if tv, ok := t.info.Types[x.Fun]; ok && tv.IsType() {
-			if len(x.Args) != 1 {
-				fail(e, "conversion with %d args", len(x.Args))
-			}
-			a, _ := t.intExpr(x.Args[0])
-			return wrap(tv.Type, a, e), ty
-		}
-		// binary.LittleEndian.Uint16 / Uint32
-		if sel, ok := x.Fun.(*ast.SelectorExpr); ok {
-			if s2, ok := sel.X.(*ast.SelectorExpr); ok && s2.Sel.Name == "LittleEndian" {
-				n := map[string]int{"Uint16": 2, "Uint32": 4}[sel.Sel.Name]
-				if n == 0 || len(x.Args) != 1 {
-					fail(e, "binary.LittleEndian.%s", sel.Sel.Name)
-				}
-				s := t.slice(x.Args[0])
-				t.requireLen(s, n, e)
-				parts := make([]string, n)
-				for i := 0; i < n; i++ {
-					if i == 0 {
-						parts[i] = t.elem(s, i)
-					} else {
-						parts[i] = fmt.Sprintf("%d * %s", int64(1)<<uint(8*i), t.elem(s, i))
-					}
-				}
-				return "(" + strings.Join(parts, " + ") + ")", ty
-			}
-		}
-		fail(e, "unsupported call in integer expression")
+		return t.call(x)
+	case *ast.CompositeLit:
+		return t.composite(x)
 	}
-	fail(e, "unsupported integer expression %T", e)
-	return "", nil
+	fail(e, "unsupported expression %T", e)
+	return nil
 }
 
-// ---- conditions ----
+func identOf(e ast.Expr) *ast.Ident {
+	id, _ := e.(*ast.Ident)
+	return id
+}
 
-func (t *tr) cond(e ast.Expr) string {
-	switch x := e.(type) {
-	case *ast.ParenExpr:
-		return "(" + t.cond(x.X) + ")"
-	case *ast.UnaryExpr:
-		if x.Op == token.NOT {
-			return "(¬ " + t.cond(x.X) + ")"
+// sentinelClass: the Err constructor errors.Is would report for a package-level error variable
+func sentinelClass(v *types.Var) string {
+	switch v.Name() {
+	case "ErrInputTooShort":
+		return ".tooShort"
+	case "ErrInvalidEnumIdx":
+		return ".invalidEnum"
+	}
+	return ".other"
+}
+
+func (t *tr) intBinary(x *ast.BinaryExpr, ty types.Type) val {
+	a := t.intOf(x.X)
+	w, signed, _ := intType(ty)
+	switch x.Op {
+	case token.SHR, token.SHL:
+		kv := t.intOf(x.Y)
+		if kv.c == nil || *kv.c < 0 || *kv.c > 63 {
+			fail(x, "non-constant shift count")
 		}
-	case *ast.BinaryExpr:
+		k := uint(*kv.c)
+		if a.c != nil {
+			if x.Op == token.SHR {
+				return constInt(ty, *a.c>>k)
+			}
+			return constInt(ty, *a.c<<k)
+		}
+		if x.Op == token.SHR {
+			return intV{lean: fmt.Sprintf("(%s / %d)", a.lean, int64(1)<<k), ty: ty, mask: shrMask(a.mask, k, signed)}
+		}
+		if a.mask != ^uint64(0) && k < 64 && (a.mask<<k)>>k == a.mask && fits(a.mask<<k, w, signed) {
+			// no bit is shifted out
+			return intV{lean: fmt.Sprintf("(%s * %d)", a.lean, int64(1)<<k), ty: ty, mask: a.mask << k}
+		}
+		m := ^uint64(0)
+		if !signed && a.mask != ^uint64(0) {
+			m = (a.mask << k) & widthMask(w)
+		} else if !signed {
+			m = widthMask(w)
+		}
+		return intV{lean: wrapLean(ty, fmt.Sprintf("(%s * %d)", a.lean, int64(1)<<k), x), ty: ty, mask: m}
+	case token.AND:
+		b := t.intOf(x.Y)
+		if a.c != nil && b.c != nil {
+			return constInt(ty, *a.c&*b.c)
+		}
+		if a.c != nil && b.c == nil {
+			a, b = b, a
+		}
+		if b.c == nil {
+			fail(x, "& of two non-constant operands")
+		}
+		if signed {
+			fail(x, "& on a signed operand")
+		}
+		m := *b.c
+		if m < 0 {
+			fail(x, "& with a negative mask")
+		}
+		if m == 0 {
+			return constInt(ty, 0)
+		}
+		if (m+1)&m == 0 {
+			return intV{lean: fmt.Sprintf("(%s %% %d)", a.lean, m+1), ty: ty, mask: a.mask & uint64(m)}
+		}
+		// a contiguous run of ones: ((a / 2^lo) % 2^len) * 2^lo
+		lo := 0
+		for m&(1<<uint(lo)) == 0 {
+			lo++
+		}
+		run := m >> uint(lo)
+		if (run+1)&run != 0 {
+			fail(x, "& with a mask that is not a contiguous run of ones")
+		}
+		return intV{lean: fmt.Sprintf("(((%s / %d) %% %d) * %d)", a.lean, int64(1)<<uint(lo), run+1, int64(1)<<uint(lo)), ty: ty, mask: a.mask & uint64(m)}
+	case token.OR, token.XOR:
+		b := t.intOf(x.Y)
+		if a.c != nil && b.c != nil {
+			if x.Op == token.OR {
+				return constInt(ty, *a.c|*b.c)
+			}
+			return constInt(ty, *a.c^*b.c)
+		}
+		if signed || a.mask&b.mask != 0 {
+			fail(x, "| or ^ of operands whose bits may overlap")
+		}
+		// disjoint bits: or = xor = sum, and the sum cannot overflow
+		return intV{lean: fmt.Sprintf("(%s + %s)", a.lean, b.lean), ty: ty, mask: a.mask | b.mask}
+	case token.ADD, token.SUB, token.MUL:
+		b := t.intOf(x.Y)
+		if a.c != nil && b.c != nil {
+			switch x.Op {
+			case token.ADD:
+				return constInt(ty, *a.c+*b.c)
+			case token.SUB:
+				return constInt(ty, *a.c-*b.c)
+			}
+			return constInt(ty, *a.c**b.c)
+		}
+		op := map[token.Token]string{token.ADD: "+", token.SUB: "-", token.MUL: "*"}[x.Op]
+		return intV{lean: wrapLean(ty, fmt.Sprintf("(%s %s %s)", a.lean, op, b.lean), x), ty: ty, mask: ^uint64(0)}
+	}
+	fail(x, "binary %s on integers", x.Op)
+	return nil
+}
+
+// fits: a value whose possibly-set bits are `mask` (non-negative, mask known) lies in the range of a w-bit type
+func fits(mask uint64, w int, signed bool) bool {
+	if mask == ^uint64(0) {
+		return false
+	}
+	if signed {
+		w--
+	}
+	return w >= 64 || mask>>uint(w) == 0
+}
+
+func shrMask(m uint64, k uint, signed bool) uint64 {
+	if signed || m == ^uint64(0) {
+		return ^uint64(0)
+	}
+	return m >> k
+}
+
+func (t *tr) boolOf(e ast.Expr) boolV {
+	v := t.eval(e)
+	b, ok := v.(boolV)
+	if !ok {
+		fail(e, "expected a condition")
+	}
+	return b
+}
+
+func mkBool(b bool) boolV {
+	return boolV{lean: map[bool]string{true: "True", false: "False"}[b], c: &b}
+}
+
+func (t *tr) boolExpr(x *ast.BinaryExpr) boolV {
+	switch x.Op {
+	case token.LAND, token.LOR:
+		a := t.boolOf(x.X)
+		// Go evaluates the right operand only when needed; bounds checks inside it are guarded accordingly
+		if a.c != nil {
+			if (x.Op == token.LAND) != *a.c {
+				return a // false && _, true || _
+			}
+			return t.boolOf(x.Y)
+		}
+		if x.Op == token.LAND {
+			t.path = append(t.path, a.lean)
+		} else {
+			t.path = append(t.path, "¬ "+a.lean)
+		}
+		b := t.boolOf(x.Y)
+		t.path = t.path[:len(t.path)-1]
+		if b.c != nil {
+			if (x.Op == token.LAND) == *b.c {
+				return a // a && true, a || false
+			}
+			return b // a && false, a || true
+		}
+		if x.Op == token.LAND {
+			return boolV{lean: "(" + a.lean + " ∧ " + b.lean + ")"}
+		}
+		return boolV{lean: "(" + a.lean + " ∨ " + b.lean + ")"}
+	}
+	op := map[token.Token]string{token.EQL: "=", token.NEQ: "≠", token.LSS: "<", token.LEQ: "≤", token.GTR: ">", token.GEQ: "≥"}[x.Op]
+	l, r := t.eval(x.X), t.eval(x.Y)
+	// error comparisons with nil
+	if le, ok := l.(errV); ok {
+		if re, ok := r.(errV); ok {
+			var e errV
+			switch {
+			case re.cond == "False":
+				e = le
+			case le.cond == "False":
+				e = re
+			default:
+				fail(x, "comparison of two error values")
+			}
+			nonNil := x.Op == token.NEQ
+			if x.Op != token.NEQ && x.Op != token.EQL {
+				fail(x, "ordering of errors")
+			}
+			if known, v := t.implied(e.cond); known {
+				return mkBool(v == nonNil)
+			}
+			if nonNil {
+				return boolV{lean: e.cond}
+			}
+			return boolV{lean: "¬ " + e.cond}
+		}
+	}
+	a, ok1 := l.(intV)
+	b, ok2 := r.(intV)
+	if !ok1 || !ok2 {
+		fail(x, "unsupported comparison")
+	}
+	if a.c != nil && b.c != nil {
+		var res bool
 		switch x.Op {
-		case token.LAND:
-			return "(" + t.cond(x.X) + " ∧ " + t.cond(x.Y) + ")"
-		case token.LOR:
-			return "(" + t.cond(x.X) + " ∨ " + t.cond(x.Y) + ")"
-		case token.EQL, token.NEQ, token.LSS, token.LEQ, token.GTR, token.GEQ:
-			op := map[token.Token]string{token.EQL: "=", token.NEQ: "≠", token.LSS: "<", token.LEQ: "≤", token.GTR: ">", token.GEQ: "≥"}[x.Op]
-			// len(inp) < N
-			if c, ok := x.X.(*ast.CallExpr); ok {
-				if id, ok := c.Fun.(*ast.Ident); ok && id.Name == "len" {
-					if a, ok := c.Args[0].(*ast.Ident); ok && a.Name == t.inpName {
-						n, ok := t.constOf(x.Y)
-						if !ok {
-							fail(e, "len(inp) compared with a non-constant")
-						}
-						return fmt.Sprintf("((%s.length : Int) %s %d)", t.inpName, op, n)
-					}
-				}
-			}
-			a, _ := t.intExpr(x.X)
-			b, _ := t.intExpr(x.Y)
-			return fmt.Sprintf("(%s %s %s)", a, op, b)
+		case token.EQL:
+			res = *a.c == *b.c
+		case token.NEQ:
+			res = *a.c != *b.c
+		case token.LSS:
+			res = *a.c < *b.c
+		case token.LEQ:
+			res = *a.c <= *b.c
+		case token.GTR:
+			res = *a.c > *b.c
+		case token.GEQ:
+			res = *a.c >= *b.c
 		}
+		return mkBool(res)
 	}
-	fail(e, "unsupported condition")
-	return ""
+	return boolV{lean: fmt.Sprintf("(%s %s %s)", a.lean, op, b.lean)}
 }
 
-// ---- float expressions ----
-
-type fl struct {
-	nan      bool
-	raw      string
-	mul, div int64
-	off      string
-	cond     string // conditional: if cond then a else b
-	a, b     *fl
-}
-
-func (f *fl) lean() string {
-	if f.cond != "" {
-		return fmt.Sprintf("(if %s then %s else %s)", f.cond, f.a.lean(), f.b.lean())
-	}
-	if f.nan {
-		return "FV.nan"
-	}
-	return fmt.Sprintf("(FV.num %s %d %d %q)", f.raw, f.mul, f.div, f.off)
-}
+// ---- floats ----
 
 func floatConst(t *tr, e ast.Expr) (string, bool) {
 	if tv, ok := t.info.Types[e]; ok && tv.Value != nil {
@@ -384,33 +726,25 @@ func floatConst(t *tr, e ast.Expr) (string, bool) {
 	return "", false
 }
 
+func (t *tr) floatOf(e ast.Expr) *fl {
+	v := t.eval(e)
+	if f, ok := v.(floatV); ok {
+		return f.f
+	}
+	fail(e, "expected a float expression")
+	return nil
+}
+
 func (t *tr) floatExpr(e ast.Expr) *fl {
 	switch x := e.(type) {
 	case *ast.ParenExpr:
 		return t.floatExpr(x.X)
-	case *ast.CallExpr:
-		if sel, ok := x.Fun.(*ast.SelectorExpr); ok {
-			if id, ok := sel.X.(*ast.Ident); ok && id.Name == "math" && sel.Sel.Name == "NaN" {
-				return &fl{nan: true}
-			}
-		}
-		if tv, ok := t.info.Types[x.Fun]; ok && tv.IsType() {
-			if b, ok := tv.Type.Underlying().(*types.Basic); ok && b.Kind() == types.Float64 {
-				a, _ := t.intExpr(x.Args[0])
-				return &fl{raw: a, mul: 1, div: 1, off: "0"}
-			}
-		}
-		if id, ok := x.Fun.(*ast.Ident); ok {
-			if fd, ok := t.funcs[id.Name]; ok {
-				return t.inlineFloatFunc(fd, x)
-			}
-		}
-		fail(e, "unsupported call in float expression")
 	case *ast.BinaryExpr:
-		f := t.floatExpr(x.X)
-		if f.nan || f.cond != "" {
+		f0 := t.floatOf(x.X)
+		if f0.nan || f0.cond != "" {
 			fail(e, "arithmetic on NaN / conditional float")
 		}
+		f := *f0
 		cs, ok := floatConst(t, x.Y)
 		if !ok {
 			fail(e, "float arithmetic with a non-constant")
@@ -440,309 +774,748 @@ func (t *tr) floatExpr(e ast.Expr) *fl {
 		default:
 			fail(e, "float operator %s", x.Op)
 		}
-		return f
+		return &f
 	}
-	fail(e, "unsupported float expression %T", e)
-	return nil
+	return t.floatOf(e)
 }
 
-// inlineFloatFunc: a package-local helper `func f(inp []byte, consts...) float64` called with constant arguments
-func (t *tr) inlineFloatFunc(fd *ast.FuncDecl, call *ast.CallExpr) *fl {
-	saved, savedEnv := t.consts, t.env
-	t.consts = map[string]int64{}
-	t.env = map[string]string{}
-	for k, v := range savedEnv {
-		t.env[k] = v
-	}
-	i := 0
-	for _, p := range fd.Type.Params.List {
-		for _, n := range p.Names {
-			arg := call.Args[i]
-			i++
-			if n.Name == t.inpName || i == 1 {
-				if id, ok := arg.(*ast.Ident); !ok || id.Name != t.inpName {
-					fail(call, "helper must be called with inp as first argument")
-				}
-				if n.Name != t.inpName {
-					fail(call, "helper's slice parameter must be named like the decoder's")
-				}
-				continue
+// ---- calls ----
+
+func (t *tr) call(x *ast.CallExpr) val {
+	ty := t.info.TypeOf(x)
+	// conversions T(x)
+	if tv, ok := t.info.Types[x.Fun]; ok && tv.IsType() {
+		if len(x.Args) != 1 {
+			fail(x, "conversion with %d args", len(x.Args))
+		}
+		if isFloat(tv.Type) {
+			a := t.eval(x.Args[0])
+			switch av := a.(type) {
+			case intV:
+				return floatV{&fl{raw: av.lean, mul: 1, div: 1, off: "0"}}
+			case floatV:
+				return av
 			}
-			v, ok := t.constOf(arg)
-			if !ok {
-				fail(call, "helper called with a non-constant argument")
+			fail(x, "conversion to float of a non-integer")
+		}
+		if _, _, isInt := intType(tv.Type); isInt {
+			a := t.intOf(x.Args[0])
+			if a.c != nil {
+				return constInt(tv.Type, *a.c)
 			}
-			t.consts[n.Name] = v
+			w, s, _ := intType(tv.Type)
+			if fits(a.mask, w, s) {
+				// the operand is known to be non-negative and below the target's range: the conversion keeps the value
+				return intV{lean: a.lean, ty: tv.Type, mask: a.mask}
+			}
+			m := ^uint64(0)
+			if !s {
+				m = widthMask(w)
+				if a.mask != ^uint64(0) {
+					m = a.mask & widthMask(w)
+				}
+			}
+			return intV{lean: wrapLean(tv.Type, a.lean, x), ty: tv.Type, mask: m}
 		}
-	}
-	res := t.floatBody(fd.Body.List)
-	t.consts, t.env = saved, savedEnv
-	return res
-}
-
-func (t *tr) floatBody(stmts []ast.Stmt) *fl {
-	if len(stmts) == 0 {
-		fail(nil, "helper without return")
-	}
-	switch s := stmts[0].(type) {
-	case *ast.ReturnStmt:
-		if len(s.Results) != 1 {
-			fail(s, "helper return with %d results", len(s.Results))
+		if isErrorType(tv.Type) {
+			return t.toErr(t.eval(x.Args[0]), x)
 		}
-		return t.floatExpr(s.Results[0])
-	case *ast.IfStmt:
-		if s.Init != nil {
-			t.execInit(s.Init)
-		}
-		c := t.cond(s.Cond)
-		t.path = append(t.path, c)
-		a := t.floatBody(s.Body.List)
-		t.path = t.path[:len(t.path)-1]
-		var b *fl
-		if s.Else != nil {
-			fail(s, "helper if with else")
-		}
-		t.path = append(t.path, "¬ "+c)
-		b = t.floatBody(stmts[1:])
-		t.path = t.path[:len(t.path)-1]
-		return &fl{cond: c, a: a, b: b}
+		fail(x, "conversion to %s", tv.Type)
 	}
-	fail(stmts[0], "unsupported statement in helper")
-	return nil
-}
-
-// ---- statements ----
-
-func (t *tr) execInit(s ast.Stmt) {
-	as, ok := s.(*ast.AssignStmt)
-	if !ok || as.Tok != token.DEFINE || len(as.Lhs) != 1 || len(as.Rhs) != 1 {
-		fail(s, "unsupported init statement")
-	}
-	name := as.Lhs[0].(*ast.Ident).Name
-	v, _ := t.intExpr(as.Rhs[0])
-	lv := t.fresh("v")
-	t.let(lv, "Int", v)
-	t.env[name] = lv
-}
-
-func isErrReturn(b *ast.BlockStmt) (string, bool) {
-	// { err = X; return }
-	if len(b.List) != 2 {
-		return "", false
-	}
-	as, ok := b.List[0].(*ast.AssignStmt)
-	if !ok || len(as.Lhs) != 1 {
-		return "", false
-	}
-	if id, ok := as.Lhs[0].(*ast.Ident); !ok || id.Name != "err" {
-		return "", false
-	}
-	if _, ok := b.List[1].(*ast.ReturnStmt); !ok {
-		return "", false
-	}
-	switch r := as.Rhs[0].(type) {
+	switch f := x.Fun.(type) {
 	case *ast.Ident:
-		return r.Name, true
+		switch f.Name {
+		case "len":
+			if _, isBuiltin := t.info.Uses[f].(*types.Builtin); isBuiltin {
+				s := t.sliceOf(x.Args[0])
+				st, dyn := t.sliceLen(s)
+				if dyn == "" {
+					return constInt(types.Typ[types.Int], int64(st))
+				}
+				if s.lo == 0 {
+					return intV{lean: "(inp.length : Int)", ty: types.Typ[types.Int], mask: ^uint64(0)}
+				}
+				return intV{lean: fmt.Sprintf("((inp.length : Int) - %d)", s.lo), ty: types.Typ[types.Int], mask: ^uint64(0)}
+			}
+		}
+		if fd, ok := t.funcs[f.Name]; ok {
+			if _, isFunc := t.info.Uses[f].(*types.Func); isFunc {
+				return t.inline(fd, x, nil)
+			}
+		}
+		fail(x, "unsupported call of %s", f.Name)
+	case *ast.SelectorExpr:
+		// binary.LittleEndian.UintNN
+		if s2, ok := f.X.(*ast.SelectorExpr); ok && s2.Sel.Name == "LittleEndian" {
+			n := map[string]int{"Uint16": 2, "Uint32": 4, "Uint64": 8}[f.Sel.Name]
+			if n == 0 || len(x.Args) != 1 {
+				fail(x, "binary.LittleEndian.%s", f.Sel.Name)
+			}
+			s := t.sliceOf(x.Args[0])
+			t.requireLen(s, n, x)
+			parts := make([]string, n)
+			for i := 0; i < n; i++ {
+				if i == 0 {
+					parts[i] = t.elem(s, i).lean
+				} else {
+					parts[i] = fmt.Sprintf("%d * %s", int64(1)<<uint(8*i), t.elem(s, i).lean)
+				}
+			}
+			return intV{lean: "(" + strings.Join(parts, " + ") + ")", ty: ty, mask: widthMask(8 * n)}
+		}
+		if id := identOf(f.X); id != nil {
+			if pn, ok := t.info.Uses[id].(*types.PkgName); ok {
+				switch pn.Imported().Path() + "." + f.Sel.Name {
+				case "math.NaN":
+					return floatV{&fl{nan: true}}
+				case "fmt.Errorf":
+					return t.errorf(x)
+				case "errors.New":
+					return errV{cond: "True", class: ".other"}
+				case "fmt.Sprintf", "fmt.Sprint":
+					for _, a := range x.Args {
+						t.eval(a)
+					}
+					return opaqueV{}
+				}
+			}
+		}
+		// veconst.XFactory.New(v)
+		if f.Sel.Name == "New" {
+			if fsel, ok := f.X.(*ast.SelectorExpr); ok && strings.HasSuffix(fsel.Sel.Name, "Factory") {
+				facType := t.info.TypeOf(fsel)
+				tn := facType.String()
+				tn = tn[strings.LastIndex(tn, ".")+1:]
+				tn = strings.TrimSuffix(tn, "FactoryType")
+				arg := t.intOf(x.Args[0])
+				lv := arg.lean
+				if !plainVar.MatchString(lv) {
+					lv = t.fresh("x")
+					t.let(lv, "Int", arg.lean)
+				}
+				rt := ty.(*types.Tuple).At(0).Type()
+				return []val{intV{lean: lv, ty: rt, mask: arg.mask}, errV{cond: fmt.Sprintf("enumOk Gen.enums %q %s = false", tn, lv), class: ".invalidEnum"}}
+			}
+		}
+		// a method of a package-local type (value receivers over symbolic structs are not needed by the decoders)
+		fail(x, "unsupported call in expression")
 	}
-	return "", false
+	fail(x, "unsupported call")
+	return nil
 }
 
-func (t *tr) copyFields() map[string]string {
-	m := map[string]string{}
-	for k, v := range t.fields {
+// errorf: fmt.Errorf — the result matches (errors.Is) what its %w operands match
+func (t *tr) errorf(x *ast.CallExpr) val {
+	class := ".other"
+	format := ""
+	if tv, ok := t.info.Types[x.Args[0]]; ok && tv.Value != nil && tv.Value.Kind() == constant.String {
+		format = constant.StringVal(tv.Value)
+	} else {
+		fail(x, "fmt.Errorf with a non-constant format")
+	}
+	// which argument does each verb consume?
+	argIdx := 1
+	for i := 0; i < len(format); i++ {
+		if format[i] != '%' {
+			continue
+		}
+		i++
+		for i < len(format) && strings.ContainsRune("+-# 0123456789.[]*", rune(format[i])) {
+			i++
+		}
+		if i >= len(format) {
+			break
+		}
+		if format[i] == '%' {
+			continue
+		}
+		if argIdx < len(x.Args) {
+			v := t.eval(x.Args[argIdx])
+			if format[i] == 'w' {
+				e := t.toErr(v, x.Args[argIdx])
+				if known, nn := t.implied(e.cond); !(known && nn) && e.cond != "True" {
+					fail(x, "%%w operand that may be nil")
+				}
+				if class == ".other" {
+					class = e.class
+				} else if e.class != ".other" && e.class != class {
+					fail(x, "two %%w operands of different classes")
+				}
+			}
+		}
+		argIdx++
+	}
+	for ; argIdx < len(x.Args); argIdx++ {
+		t.eval(x.Args[argIdx])
+	}
+	return errV{cond: "True", class: class}
+}
+
+// toErr: a value used where an error is expected
+func (t *tr) toErr(v val, n ast.Node) errV {
+	switch e := v.(type) {
+	case errV:
+		return e
+	case structV:
+		// a local error type: it matches what its Unwrap() result matches
+		name := typeName(e.typ)
+		if m, ok := t.methods[name+".Unwrap"]; ok {
+			if len(m.Body.List) == 1 {
+				if r, ok := m.Body.List[0].(*ast.ReturnStmt); ok && len(r.Results) == 1 {
+					if sel, ok := r.Results[0].(*ast.SelectorExpr); ok {
+						if fv, ok := e.fields[sel.Sel.Name]; ok {
+							inner := t.toErr(fv, n)
+							return errV{cond: "True", class: inner.class}
+						}
+						// field not set in the literal: nil
+						return errV{cond: "True", class: ".other"}
+					}
+				}
+			}
+			fail(n, "Unwrap method of %s is not `return recv.Field`", name)
+		}
+		if _, ok := t.methods[name+".Is"]; ok {
+			fail(n, "error type %s with an Is method", name)
+		}
+		return errV{cond: "True", class: ".other"}
+	}
+	fail(n, "expected an error value")
+	return errV{}
+}
+
+func typeName(ty types.Type) string {
+	if p, ok := ty.(*types.Pointer); ok {
+		ty = p.Elem()
+	}
+	if n, ok := ty.(*types.Named); ok {
+		return n.Obj().Name()
+	}
+	return ty.String()
+}
+
+func (t *tr) composite(x *ast.CompositeLit) val {
+	ty := t.info.TypeOf(x)
+	switch u := ty.Underlying().(type) {
+	case *types.Slice:
+		var elems []intV
+		for _, el := range x.Elts {
+			elems = append(elems, t.intOf(el))
+		}
+		return sliceV{lit: elems}
+	case *types.Struct:
+		sv := structV{typ: ty, fields: map[string]val{}}
+		for i, el := range x.Elts {
+			if kv, ok := el.(*ast.KeyValueExpr); ok {
+				sv.fields[kv.Key.(*ast.Ident).Name] = t.evalLoose(kv.Value)
+			} else {
+				sv.fields[u.Field(i).Name()] = t.evalLoose(el)
+			}
+		}
+		return sv
+	}
+	fail(x, "composite literal of type %s", ty)
+	return nil
+}
+
+// evalLoose: evaluate for effects (bounds checks); values of kinds the translation does not track become opaque
+func (t *tr) evalLoose(e ast.Expr) (v val) {
+	ty := t.info.TypeOf(e)
+	if b, ok := ty.Underlying().(*types.Basic); ok && b.Info()&types.IsString != 0 {
+		if _, isCall := e.(*ast.CallExpr); !isCall {
+			return opaqueV{}
+		}
+	}
+	return t.eval(e)
+}
+
+// ---- merging ----
+
+func (t *tr) mergeVal(c string, a, b val, what string) val {
+	switch av := a.(type) {
+	case intV:
+		bv, ok := b.(intV)
+		if !ok {
+			fail(nil, "%s holds values of different kinds on two paths", what)
+		}
+		if av.lean == bv.lean {
+			return av
+		}
+		return intV{lean: fmt.Sprintf("(if %s then %s else %s)", c, av.lean, bv.lean), ty: av.ty, mask: av.mask | bv.mask}
+	case floatV:
+		bv, ok := b.(floatV)
+		if !ok {
+			fail(nil, "%s holds values of different kinds on two paths", what)
+		}
+		if av.f.lean() == bv.f.lean() {
+			return av
+		}
+		return floatV{&fl{cond: c, a: av.f, b: bv.f}}
+	case boolV:
+		bv, ok := b.(boolV)
+		if !ok {
+			fail(nil, "%s holds values of different kinds on two paths", what)
+		}
+		if av.lean == bv.lean {
+			return av
+		}
+		return boolV{lean: fmt.Sprintf("((%s ∧ %s) ∨ (¬ %s ∧ %s))", c, av.lean, c, bv.lean)}
+	case errV:
+		bv, ok := b.(errV)
+		if !ok {
+			fail(nil, "%s holds values of different kinds on two paths", what)
+		}
+		if av == bv {
+			return av
+		}
+		r := errV{}
+		switch {
+		case av.cond == bv.cond:
+			r.cond = av.cond
+		case av.cond == "True" && bv.cond == "False":
+			r.cond = c
+		case av.cond == "False" && bv.cond == "True":
+			r.cond = "¬ " + c
+		case bv.cond == "False":
+			r.cond = fmt.Sprintf("(%s ∧ %s)", c, av.cond)
+		case av.cond == "False":
+			r.cond = fmt.Sprintf("(¬ %s ∧ %s)", c, bv.cond)
+		default:
+			r.cond = fmt.Sprintf("((%s ∧ %s) ∨ (¬ %s ∧ %s))", c, av.cond, c, bv.cond)
+		}
+		switch {
+		case av.class == bv.class || bv.cond == "False":
+			r.class = av.class
+		case av.cond == "False":
+			r.class = bv.class
+		default:
+			r.class = fmt.Sprintf("(if %s then %s else %s)", c, av.class, bv.class)
+		}
+		return r
+	case structV:
+		bv, ok := b.(structV)
+		if !ok {
+			fail(nil, "%s holds values of different kinds on two paths", what)
+		}
+		r := structV{typ: av.typ, fields: map[string]val{}, order: av.order}
+		for k, fa := range av.fields {
+			fb, ok := bv.fields[k]
+			if !ok {
+				fail(nil, "%s.%s is set on one path only", what, k)
+			}
+			r.fields[k] = t.mergeVal(c, fa, fb, what+"."+k)
+		}
+		return r
+	case sliceV:
+		bv, ok := b.(sliceV)
+		if !ok || fmt.Sprint(av) != fmt.Sprint(bv) {
+			fail(nil, "%s is a different slice on two paths", what)
+		}
+		return av
+	case opaqueV:
+		return av
+	case []val:
+		bv, ok := b.([]val)
+		if !ok || len(av) != len(bv) {
+			fail(nil, "%s holds tuples of different shapes", what)
+		}
+		r := make([]val, len(av))
+		for i := range av {
+			r[i] = t.mergeVal(c, av[i], bv[i], what)
+		}
+		return r
+	}
+	fail(nil, "cannot merge %s", what)
+	return nil
+}
+
+func copyEnv(e map[types.Object]val) map[types.Object]val {
+	m := make(map[types.Object]val, len(e))
+	for k, v := range e {
+		if sv, ok := v.(structV); ok {
+			f := make(map[string]val, len(sv.fields))
+			for fk, fv := range sv.fields {
+				f[fk] = fv
+			}
+			sv.fields = f
+			v = sv
+		}
 		m[k] = v
 	}
 	return m
 }
 
-func (t *tr) mergeFields(c string, a, b map[string]string) {
-	for k := range t.fields {
-		if a[k] == b[k] {
-			t.fields[k] = a[k]
-		} else {
-			// both must be of the same constructor
-			ka, kb := a[k][:2], b[k][:2]
-			if ka != kb {
-				fail(nil, "field %s assigned values of different kinds", k)
-			}
-			t.fields[k] = fmt.Sprintf("%s (if %s then %s else %s)", ka, c, strings.TrimPrefix(a[k], ka+" "), strings.TrimPrefix(b[k], kb+" "))
+func (t *tr) mergeEnv(c string, a, b map[types.Object]val) map[types.Object]val {
+	m := map[types.Object]val{}
+	for k, va := range a {
+		vb, ok := b[k]
+		if !ok {
+			continue // declared inside one branch: out of scope afterwards
 		}
+		m[k] = t.mergeVal(c, va, vb, k.Name())
+	}
+	return m
+}
+
+// ---- statements ----
+
+// result of executing a statement list: nil = fell through; otherwise the values returned (helpers) or the
+// marker that the decoder returned (its outcome line has been emitted)
+type ret struct{ vals []val }
+
+func (t *tr) zero(ty types.Type, n ast.Node) val {
+	switch {
+	case isErrorType(ty):
+		return errV{cond: "False", class: ".other"}
+	case isFloat(ty):
+		return floatV{&fl{raw: "0", mul: 1, div: 1, off: "0"}}
+	case isBool(ty):
+		return mkBool(false)
+	}
+	if _, _, ok := intType(ty); ok {
+		return constInt(ty, 0)
+	}
+	if st, ok := ty.Underlying().(*types.Struct); ok {
+		sv := structV{typ: ty, fields: map[string]val{}}
+		for i := 0; i < st.NumFields(); i++ {
+			sv.fields[st.Field(i).Name()] = t.zero(st.Field(i).Type(), n)
+			sv.order = append(sv.order, st.Field(i).Name())
+		}
+		return sv
+	}
+	if b, ok := ty.Underlying().(*types.Basic); ok && b.Info()&types.IsString != 0 {
+		return opaqueV{}
+	}
+	fail(n, "zero value of type %s", ty)
+	return nil
+}
+
+// bind: store a value in a variable; integers that are not plain get a `let`
+func (t *tr) bind(obj types.Object, v val, prefix string) {
+	if iv, ok := v.(intV); ok && iv.c == nil && !plainVar.MatchString(iv.lean) {
+		lv := t.fresh(prefix)
+		t.let(lv, "Int", iv.lean)
+		iv.lean = lv
+		v = iv
+	}
+	t.env[obj] = v
+}
+
+func (t *tr) objOf(id *ast.Ident) types.Object {
+	if o := t.info.Defs[id]; o != nil {
+		return o
+	}
+	return t.info.Uses[id]
+}
+
+func (t *tr) assignTo(lhs ast.Expr, v val, define bool) {
+	switch l := lhs.(type) {
+	case *ast.Ident:
+		if l.Name == "_" {
+			return
+		}
+		obj := t.objOf(l)
+		if obj == nil {
+			fail(lhs, "assignment to unknown variable %s", l.Name)
+		}
+		if vr, ok := obj.(*types.Var); ok && isErrorType(vr.Type()) {
+			v = t.toErr(v, lhs)
+		}
+		t.bind(obj, v, "v")
+	case *ast.SelectorExpr:
+		id := identOf(l.X)
+		if id == nil {
+			fail(lhs, "assignment to a nested field")
+		}
+		obj := t.objOf(id)
+		sv, ok := t.env[obj].(structV)
+		if !ok {
+			fail(lhs, "assignment to a field of something that is not a local struct")
+		}
+		old, ok := sv.fields[l.Sel.Name]
+		if !ok {
+			fail(lhs, "assignment to unknown field %s", l.Sel.Name)
+		}
+		switch old.(type) {
+		case intV:
+			iv, ok := v.(intV)
+			if !ok {
+				fail(lhs, "integer field assigned a non-integer")
+			}
+			// stored through a let so that later reads (switch tags) are cheap and the record stays small
+			if !plainVar.MatchString(iv.lean) {
+				lv := t.fresh("x")
+				t.let(lv, "Int", iv.lean)
+				iv = intV{lean: lv, ty: iv.ty, c: iv.c, mask: iv.mask}
+			}
+			v = iv
+		case floatV:
+			if _, ok := v.(floatV); !ok {
+				fail(lhs, "float field assigned a non-float")
+			}
+		}
+		f := make(map[string]val, len(sv.fields))
+		for k, fv := range sv.fields {
+			f[k] = fv
+		}
+		f[l.Sel.Name] = v
+		sv.fields = f
+		t.env[obj] = sv
+	default:
+		fail(lhs, "unsupported assignment target")
 	}
 }
 
-func (t *tr) assignField(lhs *ast.SelectorExpr, rhs ast.Expr) {
-	name := lhs.Sel.Name
-	old, ok := t.fields[name]
-	if !ok {
-		fail(lhs, "assignment to unknown field %s", name)
-	}
-	if strings.HasPrefix(old, ".f ") {
-		t.fields[name] = ".f " + t.floatExpr(rhs).lean()
-	} else {
-		v, _ := t.intExpr(rhs)
-		// store through a let so that later reads (switch tags) are cheap and the record stays small
-		lv := t.fresh("x")
-		t.let(lv, "Int", v)
-		t.fields[name] = ".i " + lv
-	}
-}
-
-func (t *tr) exec(stmts []ast.Stmt) {
-	for _, s := range stmts {
-		switch x := s.(type) {
-		case *ast.ReturnStmt:
-			if len(x.Results) != 0 {
-				fail(s, "return with results")
+func (t *tr) execAssign(x *ast.AssignStmt) {
+	define := x.Tok == token.DEFINE
+	switch x.Tok {
+	case token.DEFINE, token.ASSIGN:
+		if len(x.Rhs) == 1 && len(x.Lhs) > 1 {
+			v := t.eval(x.Rhs[0])
+			tuple, ok := v.([]val)
+			if !ok || len(tuple) != len(x.Lhs) {
+				fail(x, "multi-value assignment from a non-tuple")
+			}
+			for i, l := range x.Lhs {
+				t.assignTo(l, tuple[i], define)
 			}
 			return
+		}
+		if len(x.Lhs) != len(x.Rhs) {
+			fail(x, "unbalanced assignment")
+		}
+		vals := make([]val, len(x.Rhs))
+		for i, r := range x.Rhs {
+			vals[i] = t.evalLoose(r)
+			if tuple, ok := vals[i].([]val); ok && len(tuple) == 1 {
+				vals[i] = tuple[0]
+			}
+		}
+		for i, l := range x.Lhs {
+			t.assignTo(l, vals[i], define)
+		}
+	default:
+		// x op= y
+		op, ok := map[token.Token]token.Token{token.AND_ASSIGN: token.AND, token.OR_ASSIGN: token.OR, token.SHL_ASSIGN: token.SHL,
+			token.SHR_ASSIGN: token.SHR, token.ADD_ASSIGN: token.ADD, token.SUB_ASSIGN: token.SUB, token.MUL_ASSIGN: token.MUL, token.XOR_ASSIGN: token.XOR}[x.Tok]
+		if !ok || len(x.Lhs) != 1 {
+			fail(x, "assignment operator %s", x.Tok)
+		}
+		be := &ast.BinaryExpr{X: x.Lhs[0], Op: op, Y: x.Rhs[0], OpPos: x.TokPos}
+		ty := t.info.TypeOf(x.Lhs[0])
+		if isFloat(ty) {
+			fail(x, "float assignment operator")
+		}
+		t.assignTo(x.Lhs[0], t.intBinary(be, ty), false)
+	}
+}
+
+func (t *tr) execSeq(stmts []ast.Stmt) *ret {
+	for i, s := range stmts {
+		switch x := s.(type) {
+		case *ast.ReturnStmt:
+			return t.execReturn(x)
 		case *ast.AssignStmt:
-			if len(x.Lhs) == 1 && len(x.Rhs) == 1 && x.Tok == token.DEFINE {
-				// v := <integer expression> : a local, bound once
-				if _, _, ok := intType(t.info.TypeOf(x.Rhs[0])); ok {
-					t.execInit(x)
+			t.execAssign(x)
+		case *ast.DeclStmt:
+			gd, ok := x.Decl.(*ast.GenDecl)
+			if !ok || gd.Tok != token.VAR {
+				if ok && gd.Tok == token.CONST {
 					continue
 				}
+				fail(s, "unsupported declaration")
 			}
-			if len(x.Lhs) != 1 || x.Tok != token.ASSIGN {
-				fail(s, "unsupported assignment")
+			for _, sp := range gd.Specs {
+				vs := sp.(*ast.ValueSpec)
+				for j, n := range vs.Names {
+					obj := t.info.Defs[n]
+					if len(vs.Values) > j {
+						t.bind(obj, t.evalLoose(vs.Values[j]), "v")
+					} else {
+						t.env[obj] = t.zero(obj.Type(), s)
+					}
+				}
 			}
-			sel, ok := x.Lhs[0].(*ast.SelectorExpr)
-			if !ok {
-				fail(s, "assignment to something other than ret.Field")
+		case *ast.ExprStmt:
+			t.evalLoose(x.X)
+		case *ast.BlockStmt:
+			if r := t.execSeq(x.List); r != nil {
+				return r
 			}
-			if id, ok := sel.X.(*ast.Ident); !ok || id.Name != "ret" {
-				fail(s, "assignment to something other than ret.Field")
-			}
-			t.assignField(sel, x.Rhs[0])
 		case *ast.IfStmt:
-			t.execIf(x)
+			if r, done := t.execIf(x, stmts[i+1:]); done {
+				return r
+			}
 		case *ast.SwitchStmt:
-			t.execSwitch(x)
+			if r, done := t.execSwitch(x, stmts[i+1:]); done {
+				return r
+			}
+		case *ast.EmptyStmt:
 		default:
 			fail(s, "unsupported statement %T", s)
 		}
 	}
+	return nil
 }
 
-func (t *tr) execIf(x *ast.IfStmt) {
-	// form 1: if len(inp) < N { err = ErrInputTooShort; return }
-	if x.Init == nil && x.Else == nil {
-		if errName, ok := isErrReturn(x.Body); ok {
-			if errName != "ErrInputTooShort" {
-				fail(x, "error return of %s", errName)
-			}
-			t.check(t.cond(x.Cond), "(.err .tooShort)")
-			return
-		}
+// branch: run a block under an extra path condition on a copy of the environment
+func (t *tr) branch(cond string, body []ast.Stmt, env map[types.Object]val) (*ret, map[types.Object]val) {
+	saved := t.env
+	t.env = copyEnv(env)
+	if cond != "" {
+		t.path = append(t.path, cond)
 	}
-	// form 2: if v, e := veconst.XFactory.New(ARG); e != nil { err = e; return } else { ret.F = v }
-	if as, ok := x.Init.(*ast.AssignStmt); ok && len(as.Lhs) == 2 {
-		call, ok := as.Rhs[0].(*ast.CallExpr)
-		if !ok {
-			fail(x, "two-value init that is not a call")
-		}
-		sel, ok := call.Fun.(*ast.SelectorExpr)
-		if !ok || sel.Sel.Name != "New" {
-			fail(x, "two-value init that is not Factory.New")
-		}
-		fsel, ok := sel.X.(*ast.SelectorExpr)
-		if !ok || !strings.HasSuffix(fsel.Sel.Name, "Factory") {
-			fail(x, "two-value init that is not veconst.XFactory.New")
-		}
-		facType := t.info.TypeOf(fsel)
-		tn := facType.String()
-		tn = tn[strings.LastIndex(tn, ".")+1:]
-		tn = strings.TrimSuffix(tn, "FactoryType")
-		vName := as.Lhs[0].(*ast.Ident).Name
-		eName := as.Lhs[1].(*ast.Ident).Name
-		// cond must be e != nil, body an error return of e, else { ret.F = v }
-		be, ok := x.Cond.(*ast.BinaryExpr)
-		if !ok || be.Op != token.NEQ {
-			fail(x, "factory check condition")
-		}
-		if id, ok := be.X.(*ast.Ident); !ok || id.Name != eName {
-			fail(x, "factory check condition")
-		}
-		if en, ok := isErrReturn(x.Body); !ok || en != eName {
-			fail(x, "factory check body")
-		}
-		arg, _ := t.intExpr(call.Args[0])
-		lv := t.fresh("x")
-		t.let(lv, "Int", arg)
-		t.check(fmt.Sprintf("enumOk Gen.enums %q %s = false", tn, lv), "(.err .invalidEnum)")
-		els, ok := x.Else.(*ast.BlockStmt)
-		if !ok || len(els.List) != 1 {
-			fail(x, "factory check else branch")
-		}
-		ea, ok := els.List[0].(*ast.AssignStmt)
-		if !ok {
-			fail(x, "factory check else branch")
-		}
-		if id, ok := ea.Rhs[0].(*ast.Ident); !ok || id.Name != vName {
-			fail(x, "factory check else branch")
-		}
-		fsel2 := ea.Lhs[0].(*ast.SelectorExpr)
-		if _, ok := t.fields[fsel2.Sel.Name]; !ok {
-			fail(x, "unknown field")
-		}
-		t.fields[fsel2.Sel.Name] = ".i " + lv
-		return
-	}
-	// form 3: if [v := E;] COND { S1 } [else { S2 }]
-	savedEnv := map[string]string{}
-	for k, v := range t.env {
-		savedEnv[k] = v
-	}
-	if x.Init != nil {
-		t.execInit(x.Init)
-	}
-	c := t.cond(x.Cond)
-	before := t.copyFields()
-	t.path = append(t.path, c)
-	t.exec(x.Body.List)
-	t.path = t.path[:len(t.path)-1]
-	a := t.copyFields()
-	t.fields = before
-	b := t.copyFields()
-	if x.Else != nil {
-		eb, ok := x.Else.(*ast.BlockStmt)
-		if !ok {
-			fail(x, "else if")
-		}
-		t.fields = t.copyFields()
-		t.path = append(t.path, "¬ "+c)
-		t.exec(eb.List)
+	r := t.execSeq(body)
+	if cond != "" {
 		t.path = t.path[:len(t.path)-1]
-		b = t.copyFields()
 	}
-	t.mergeFields(c, a, b)
-	t.env = savedEnv
+	out := t.env
+	t.env = saved
+	return r, out
 }
 
-func (t *tr) execSwitch(x *ast.SwitchStmt) {
-	if x.Init != nil || x.Tag == nil {
-		fail(x, "switch with init / without tag")
+// joinBranches: combine the outcomes of `if c then A else B`; `rest` is what follows the statement.
+// Returns (result, true) when the whole remainder has been consumed.
+func (t *tr) joinBranches(c string, rA *ret, eA map[types.Object]val, rB *ret, eB map[types.Object]val, rest []ast.Stmt) (*ret, bool) {
+	switch {
+	case rA == nil && rB == nil:
+		t.env = t.mergeEnv(c, eA, eB)
+		return nil, false
+	case rA != nil && rB != nil:
+		if t.top {
+			return rA, true
+		}
+		return &ret{t.mergeVal(c, rA.vals, rB.vals, "result").([]val)}, true
 	}
-	tag, _ := t.intExpr(x.Tag)
-	before := t.copyFields()
+	if t.top {
+		// the returning branch has emitted its outcome line; what follows is evaluated on the other branch only
+		if rA != nil {
+			t.env = eB
+		} else {
+			t.env = eA
+		}
+		return nil, false
+	}
+	// a helper: the value of the call is conditional; the remainder runs under the complementary condition
+	if rA != nil {
+		t.env = eB
+		t.path = append(t.path, "¬ "+c)
+		rR := t.execSeq(rest)
+		t.path = t.path[:len(t.path)-1]
+		if rR == nil {
+			fail(nil, "helper may fall off its end")
+		}
+		return &ret{t.mergeVal(c, rA.vals, rR.vals, "result").([]val)}, true
+	}
+	t.env = eA
+	t.path = append(t.path, c)
+	rR := t.execSeq(rest)
+	t.path = t.path[:len(t.path)-1]
+	if rR == nil {
+		fail(nil, "helper may fall off its end")
+	}
+	return &ret{t.mergeVal(c, rR.vals, rB.vals, "result").([]val)}, true
+}
+
+func (t *tr) execIf(x *ast.IfStmt, rest []ast.Stmt) (*ret, bool) {
+	outer := t.env
+	t.env = copyEnv(outer)
+	if x.Init != nil {
+		if r := t.execSeq([]ast.Stmt{x.Init}); r != nil {
+			fail(x, "return in if-init")
+		}
+	}
+	c := t.boolOf(x.Cond)
+	var elseBody []ast.Stmt
+	switch e := x.Else.(type) {
+	case *ast.BlockStmt:
+		elseBody = e.List
+	case *ast.IfStmt:
+		elseBody = []ast.Stmt{e}
+	case nil:
+	default:
+		fail(x, "unsupported else")
+	}
+	inner := t.env
+	drop := func(e map[types.Object]val) map[types.Object]val { // variables of the if-init go out of scope
+		m := map[types.Object]val{}
+		for k, v := range e {
+			if _, ok := outer[k]; ok {
+				m[k] = v
+			}
+		}
+		return m
+	}
+	if c.c != nil {
+		// decided at translation time
+		body := x.Body.List
+		if !*c.c {
+			body = elseBody
+		}
+		r, e := t.branch("", body, inner)
+		t.env = drop(e)
+		if r != nil {
+			return r, true
+		}
+		return nil, false
+	}
+	rA, eA := t.branch(c.lean, x.Body.List, inner)
+	rB, eB := t.branch("¬ "+c.lean, elseBody, inner)
+	r, done := t.joinBranches(c.lean, rA, drop(eA), rB, drop(eB), rest)
+	return r, done
+}
+
+func (t *tr) execSwitch(x *ast.SwitchStmt, rest []ast.Stmt) (*ret, bool) {
+	outer := t.env
+	t.env = copyEnv(outer)
+	if x.Init != nil {
+		if r := t.execSeq([]ast.Stmt{x.Init}); r != nil {
+			fail(x, "return in switch-init")
+		}
+	}
+	var tag *intV
+	if x.Tag != nil {
+		tv := t.intOf(x.Tag)
+		tag = &tv
+	}
+	before := t.env
 	type br struct {
-		cond   string
-		fields map[string]string
+		cond string
+		r    *ret
+		env  map[types.Object]val
 	}
 	var brs []br
 	var seen []string
+	var def *ast.CaseClause
 	for _, cc := range x.Body.List {
 		c := cc.(*ast.CaseClause)
 		if len(c.List) == 0 {
-			fail(c, "default clause")
+			def = c
+			continue
+		}
+		for _, st := range c.Body {
+			if b, ok := st.(*ast.BranchStmt); ok && b.Tok == token.FALLTHROUGH {
+				fail(b, "fallthrough")
+			}
 		}
 		var cs []string
 		for _, v := range c.List {
-			k, ok := t.constOf(v)
-			if !ok {
-				fail(v, "non-constant case")
+			if tag != nil {
+				k := t.intOf(v)
+				if k.c == nil {
+					fail(v, "non-constant case")
+				}
+				if tag.c != nil {
+					cs = append(cs, map[bool]string{true: "True", false: "False"}[*tag.c == *k.c])
+				} else {
+					cs = append(cs, fmt.Sprintf("%s = %d", tag.lean, *k.c))
+				}
+			} else {
+				b := t.boolOf(v)
+				cs = append(cs, strings.TrimSuffix(strings.TrimPrefix(b.lean, "("), ")"))
+				if !strings.HasPrefix(b.lean, "(") {
+					cs[len(cs)-1] = b.lean
+				}
 			}
-			cs = append(cs, fmt.Sprintf("%s = %d", tag, k))
 		}
 		cnd := "(" + strings.Join(cs, " ∨ ") + ")"
 		full := cnd
@@ -750,31 +1523,236 @@ func (t *tr) execSwitch(x *ast.SwitchStmt) {
 			full = "(" + cnd + " ∧ ¬ (" + strings.Join(seen, " ∨ ") + "))"
 		}
 		seen = append(seen, cnd)
-		t.fields = map[string]string{}
-		for k, v := range before {
-			t.fields[k] = v
+		r, e := t.branch(full, c.Body, before)
+		brs = append(brs, br{full, r, e})
+	}
+	// the default clause (or nothing) when no case matched
+	var rD *ret
+	eD := before
+	if def != nil {
+		full := "True"
+		if len(seen) > 0 {
+			full = "¬ (" + strings.Join(seen, " ∨ ") + ")"
 		}
-		t.path = append(t.path, full)
-		t.exec(c.Body)
-		t.path = t.path[:len(t.path)-1]
-		brs = append(brs, br{full, t.copyFields()})
+		rD, eD = t.branch(full, def.Body, before)
+	}
+	drop := func(e map[types.Object]val) map[types.Object]val {
+		m := map[types.Object]val{}
+		for k, v := range e {
+			if _, ok := outer[k]; ok {
+				m[k] = v
+			}
+		}
+		return m
 	}
 	// merge from the last case backwards
-	cur := before
+	curR, curE := rD, eD
 	for i := len(brs) - 1; i >= 0; i-- {
-		t.fields = map[string]string{}
-		for k := range before {
-			t.fields[k] = ""
+		b := brs[i]
+		switch {
+		case b.r == nil && curR == nil:
+			curE = t.mergeEnv(b.cond, b.env, curE)
+		case b.r != nil && curR != nil:
+			if !t.top {
+				curR = &ret{t.mergeVal(b.cond, b.r.vals, curR.vals, "result").([]val)}
+			}
+		case t.top && b.r != nil:
+			// this case returned: its outcome line is emitted; keep the others' state
+		case t.top && curR != nil:
+			curR, curE = nil, b.env
+		default:
+			fail(x, "a helper's switch in which only some cases return")
 		}
-		t.mergeFields(brs[i].cond, brs[i].fields, cur)
-		cur = t.copyFields()
 	}
-	t.fields = cur
+	t.env = drop(curE)
+	if curR != nil {
+		return curR, true
+	}
+	_ = rest
+	return nil, false
+}
+
+// ---- inlining ----
+
+func (t *tr) inline(fd *ast.FuncDecl, call *ast.CallExpr, recv val) val {
+	if t.depth > 8 {
+		fail(call, "helper nesting too deep (recursion?)")
+	}
+	if fd.Body == nil {
+		fail(call, "helper without body")
+	}
+	var args []val
+	for _, a := range call.Args {
+		args = append(args, t.evalLoose(a))
+	}
+	savedEnv, savedTop := t.env, t.top
+	t.env = map[types.Object]val{}
+	t.top = false
+	t.depth++
+	i := 0
+	for _, p := range fd.Type.Params.List {
+		for _, n := range p.Names {
+			if i >= len(args) {
+				fail(call, "variadic or missing arguments")
+			}
+			obj := t.info.Defs[n]
+			v := args[i]
+			i++
+			if n.Name == "_" {
+				continue
+			}
+			if vr, ok := obj.(*types.Var); ok && isErrorType(vr.Type()) {
+				v = t.toErr(v, call)
+			}
+			if iv, ok := v.(intV); ok {
+				// the parameter has its own type
+				iv.ty = obj.Type()
+				v = iv
+			}
+			t.env[obj] = v // substituted: arguments are small (a byte, a let-bound word, a constant)
+		}
+	}
+	if i != len(args) {
+		fail(call, "variadic helper")
+	}
+	var named []types.Object
+	if fd.Type.Results != nil {
+		for _, r := range fd.Type.Results.List {
+			for _, n := range r.Names {
+				obj := t.info.Defs[n]
+				named = append(named, obj)
+				t.env[obj] = t.zero(obj.Type(), call)
+			}
+		}
+	}
+	t.fdStack = append(t.fdStack, named)
+	r := t.execSeq(fd.Body.List)
+	t.fdStack = t.fdStack[:len(t.fdStack)-1]
+	var out []val
+	if r != nil {
+		out = r.vals
+	} else if fd.Type.Results == nil || fd.Type.Results.NumFields() == 0 {
+		out = nil
+	} else if len(named) > 0 {
+		for _, o := range named {
+			out = append(out, t.env[o])
+		}
+	} else {
+		fail(call, "helper may fall off its end")
+	}
+	t.env, t.top = savedEnv, savedTop
+	t.depth--
+	switch len(out) {
+	case 0:
+		return opaqueV{}
+	case 1:
+		return out[0]
+	}
+	return out
+}
+
+func (t *tr) execReturn(x *ast.ReturnStmt) *ret {
+	if !t.top {
+		named := t.fdStack[len(t.fdStack)-1]
+		var vals []val
+		if len(x.Results) == 0 {
+			for _, o := range named {
+				vals = append(vals, t.env[o])
+			}
+			return &ret{vals}
+		}
+		if len(x.Results) == 1 {
+			v := t.evalLoose(x.Results[0])
+			if tuple, ok := v.([]val); ok {
+				return &ret{tuple}
+			}
+			return &ret{[]val{v}}
+		}
+		for _, r := range x.Results {
+			vals = append(vals, t.evalLoose(r))
+		}
+		return &ret{vals}
+	}
+	// the decoder returns: (ret, err)
+	rv, ev := t.env[t.retObj], t.env[t.errObj]
+	switch len(x.Results) {
+	case 0:
+	case 2:
+		rv = t.eval(x.Results[0])
+		ev = t.toErr(t.eval(x.Results[1]), x)
+	case 1:
+		tuple, ok := t.eval(x.Results[0]).([]val)
+		if !ok || len(tuple) != 2 {
+			fail(x, "return of a single non-tuple value")
+		}
+		rv, ev = tuple[0], t.toErr(tuple[1], x)
+	default:
+		fail(x, "return with %d results", len(x.Results))
+	}
+	t.outcome(rv.(structV), ev.(errV), x)
+	return &ret{}
+}
+
+// outcome: emit what the decoder returns on the current path
+func (t *tr) outcome(rec structV, e errV, n ast.Node) {
+	known, nonNil := t.implied(e.cond)
+	final := len(t.path) == 0
+	switch {
+	case known && nonNil:
+		if final {
+			t.lines = append(t.lines, fmt.Sprintf("(.err %s)", e.class))
+			t.ended = true
+			return
+		}
+		t.check("True", fmt.Sprintf("(.err %s)", e.class))
+	case known && !nonNil:
+		if final {
+			t.finish(rec)
+			return
+		}
+		t.check("True", "(.ok "+t.recLit(rec)+")")
+	default:
+		t.check(e.cond, fmt.Sprintf("(.err %s)", e.class))
+		if final {
+			t.finish(rec)
+			return
+		}
+		t.check("True", "(.ok "+t.recLit(rec)+")")
+	}
+}
+
+func (t *tr) fieldLean(v val, n ast.Node) string {
+	switch f := v.(type) {
+	case intV:
+		return ".i " + f.lean
+	case floatV:
+		return ".f " + f.f.lean()
+	}
+	fail(n, "result field of unsupported kind")
+	return ""
+}
+
+func (t *tr) recLit(rec structV) string {
+	var parts []string
+	for _, f := range t.order {
+		parts = append(parts, fmt.Sprintf("(%q, %s)", f, t.fieldLean(rec.fields[f], nil)))
+	}
+	return "[" + strings.Join(parts, ", ") + "]"
+}
+
+func (t *tr) finish(rec structV) {
+	var parts []string
+	for _, f := range t.order {
+		t.lines = append(t.lines, fmt.Sprintf("let f%s : FVal := %s", f, t.fieldLean(rec.fields[f], nil)))
+		parts = append(parts, fmt.Sprintf("(%q, f%s)", f, f))
+	}
+	t.lines = append(t.lines, fmt.Sprintf(".ok [%s]", strings.Join(parts, ", ")))
+	t.ended = true
 }
 
 // ---- per function ----
 
-func translate(info *types.Info, funcs map[string]*ast.FuncDecl, fd *ast.FuncDecl, w *bufio.Writer) (err error) {
+func translate(info *types.Info, funcs, methods map[string]*ast.FuncDecl, fd *ast.FuncDecl, w *bufio.Writer) (err error) {
 	defer func() {
 		if r := recover(); r != nil {
 			if u, ok := r.(unsupported); ok {
@@ -784,47 +1762,62 @@ func translate(info *types.Info, funcs map[string]*ast.FuncDecl, fd *ast.FuncDec
 			panic(r)
 		}
 	}()
-	// signature: func DecodeX(inp []byte) (ret T, err error)
+	// signature: func DecodeX(inp []byte) (T, error)
 	if fd.Type.Params.NumFields() != 1 || fd.Type.Results.NumFields() != 2 {
 		fail(fd, "decoder signature")
 	}
-	t := &tr{info: info, funcs: funcs, env: map[string]string{}, senv: map[string]sliceVal{}, consts: map[string]int64{}, fields: map[string]string{}}
-	t.inpName = fd.Type.Params.List[0].Names[0].Name
-	if t.inpName != "inp" {
-		fail(fd, "decoder parameter must be called inp")
+	t := &tr{info: info, funcs: funcs, methods: methods, env: map[types.Object]val{}, top: true, fd: fd}
+	pn := fd.Type.Params.List[0].Names[0]
+	t.inpObj = info.Defs[pn]
+	t.env[t.inpObj] = sliceV{isInp: true, lo: 0, hi: -1}
+	var resTypes []types.Type
+	var resObjs []types.Object
+	for _, r := range fd.Type.Results.List {
+		ty := info.TypeOf(r.Type)
+		if len(r.Names) == 0 {
+			resTypes = append(resTypes, ty)
+			resObjs = append(resObjs, nil)
+		}
+		for _, n := range r.Names {
+			resTypes = append(resTypes, ty)
+			resObjs = append(resObjs, info.Defs[n])
+		}
 	}
-	if fd.Type.Results.List[0].Names[0].Name != "ret" {
-		fail(fd, "decoder result must be called ret")
+	st, ok := resTypes[0].Underlying().(*types.Struct)
+	if !ok || !isErrorType(resTypes[1]) {
+		fail(fd, "decoder result is not (struct, error)")
 	}
-	rt := info.TypeOf(fd.Type.Results.List[0].Type)
-	st, ok := rt.Underlying().(*types.Struct)
-	if !ok {
-		fail(fd, "decoder result is not a struct")
-	}
-	var order []string
 	for i := 0; i < st.NumFields(); i++ {
 		f := st.Field(i)
-		order = append(order, f.Name())
-		if b, ok := f.Type().Underlying().(*types.Basic); ok && b.Kind() == types.Float64 {
-			t.fields[f.Name()] = `.f (FV.num 0 1 1 "0")`
-		} else if _, _, ok := intType(f.Type()); ok {
-			t.fields[f.Name()] = ".i 0"
-		} else {
+		t.order = append(t.order, f.Name())
+		if _, _, isInt := intType(f.Type()); !isInt && !isFloat(f.Type()) {
 			fail(fd, "field %s of unsupported type %s", f.Name(), f.Type())
 		}
 	}
-	t.exec(fd.Body.List)
+	// unnamed results get private objects
+	if resObjs[0] == nil {
+		resObjs[0] = types.NewVar(token.NoPos, nil, "ret", resTypes[0])
+	}
+	if resObjs[1] == nil {
+		resObjs[1] = types.NewVar(token.NoPos, nil, "err", resTypes[1])
+	}
+	t.retObj, t.errObj = resObjs[0], resObjs[1]
+	t.env[t.retObj] = t.zero(resTypes[0], fd)
+	t.env[t.errObj] = t.zero(resTypes[1], fd)
+	t.fdStack = [][]types.Object{{t.retObj, t.errObj}}
+	if r := t.execSeq(fd.Body.List); r == nil {
+		// fell off the end: the named results
+		t.outcome(t.env[t.retObj].(structV), t.env[t.errObj].(errV), fd)
+	}
+	if !t.ended {
+		fail(fd, "the decoder has no final outcome")
+	}
 	name := "decode" + strings.TrimPrefix(fd.Name.Name, "Decode")
 	fmt.Fprintf(w, "/-- translation of bleparser.%s -/\ndef %s (inp spare : Bytes) : R Rec :=\n", fd.Name.Name, name)
 	for _, l := range t.lines {
 		fmt.Fprintf(w, "  %s\n", l)
 	}
-	var parts []string
-	for _, f := range order {
-		fmt.Fprintf(w, "  let f%s : FVal := %s\n", f, t.fields[f])
-		parts = append(parts, fmt.Sprintf("(%q, f%s)", f, f))
-	}
-	fmt.Fprintf(w, "  .ok [%s]\n\n", strings.Join(parts, ", "))
+	fmt.Fprintf(w, "\n")
 	return nil
 }
 
@@ -853,21 +1846,35 @@ func main() {
 	for _, n := range names {
 		files = append(files, pkg.Files[n])
 	}
-	info := &types.Info{Types: map[ast.Expr]types.TypeAndValue{}, Defs: map[*ast.Ident]types.Object{}, Uses: map[*ast.Ident]types.Object{}}
+	info := &types.Info{Types: map[ast.Expr]types.TypeAndValue{}, Defs: map[*ast.Ident]types.Object{}, Uses: map[*ast.Ident]types.Object{},
+		Selections: map[*ast.SelectorExpr]*types.Selection{}}
 	conf := types.Config{Importer: importer.ForCompiler(fset, "source", nil)}
 	if _, err := conf.Check("github.com/koestler/go-victron/bleparser", fset, files, info); err != nil {
 		fmt.Fprintln(os.Stderr, "ble2lean: type check:", err)
 		os.Exit(1)
 	}
 	funcs := map[string]*ast.FuncDecl{}
+	methods := map[string]*ast.FuncDecl{}
 	var decoders []*ast.FuncDecl
 	for _, f := range files {
 		for _, d := range f.Decls {
-			if fd, ok := d.(*ast.FuncDecl); ok && fd.Recv == nil {
+			fd, ok := d.(*ast.FuncDecl)
+			if !ok {
+				continue
+			}
+			if fd.Recv == nil {
 				funcs[fd.Name.Name] = fd
 				if strings.HasPrefix(fd.Name.Name, "Decode") {
 					decoders = append(decoders, fd)
 				}
+				continue
+			}
+			rt := fd.Recv.List[0].Type
+			if s, ok := rt.(*ast.StarExpr); ok {
+				rt = s.X
+			}
+			if id, ok := rt.(*ast.Ident); ok {
+				methods[id.Name+"."+fd.Name.Name] = fd
 			}
 		}
 	}
@@ -882,7 +1889,7 @@ func main() {
 	rc := 0
 	var done []string
 	for _, fd := range decoders {
-		if err := translate(info, funcs, fd, w); err != nil {
+		if err := translate(info, funcs, methods, fd, w); err != nil {
 			fmt.Fprintln(os.Stderr, "ble2lean:", err)
 			rc = 1
 			continue
